@@ -419,28 +419,35 @@ class MCNP_Problem:
                 # the data block is terminated below, after the cell modifiers that go to it
                 (self.data_inputs, False),
             ]
+
+            def tag_new_warnings(obj, lines):
+                # handle ALL new warnings
+                for warning in warning_catch[::-1]:
+                    if getattr(warning, "handled", None):
+                        break
+                    warning.lineno = fh.lineno
+                    warning.path = fh.name
+                    warning.obj = obj
+                    warning.lines = lines
+                    warning.handled = True
+
             for objects, terminate in objects_list:
                 for obj in objects:
                     lines = obj.format_for_mcnp_input(self.mcnp_version)
                     if warning_catch:
-                        # handle ALL new warnings
-                        for warning in warning_catch[::-1]:
-                            if getattr(warning, "handled", None):
-                                break
-                            warning.lineno = fh.lineno
-                            warning.path = fh.name
-                            warning.obj = obj
-                            warning.lines = lines
-                            warning.handled = True
+                        tag_new_warnings(obj, lines)
                     for line in lines:
                         fh.write(line + "\n")
                 if terminate:
                     fh.write("\n")
             # cell modifiers that were not in the original data block still belong to it:
             # MCNP stops reading at the blank line that ends the data block.
-            for line in self.cells._run_children_format_for_mcnp(
+            lines = self.cells._run_children_format_for_mcnp(
                 self.data_inputs, self.mcnp_version
-            ):
+            )
+            if warning_catch:
+                tag_new_warnings(self.cells, lines)
+            for line in lines:
                 fh.write(line + "\n")
 
             fh.write("\n")
